@@ -5,11 +5,9 @@ Two kinds of runs:
       execution; the batch is cut into executions by mc::choose inside the harness (`per` calls per execution).
   (B) schedule exploration (pf_one / pf_state / fe_one): dotted parameter lists are folded into one explorer run by
       mc::choose. Two flavours:
-        preempt: --bound 1/2, the body brackets an mc::point()            (static, explicit chunk, adaptive+nowait paths)
-        yield:   --bound 0, the body also calls std::this_thread::yield() (every path, including the adaptive stripes:
-                 switches at yields/blocks are free, so bound 0 already explores every order of the bodies)
-      The stripe path (adaptive, wait=true) is not explored with preemptions: a stealer that spins on a retiring stripe
-      performs a fetch_add per iteration, which the engine's spin rule does not recognise (executions end `truncated`).
+        preempt: --bound 1/2, the body brackets an mc::point()
+        yield:   --bound 0, the body also calls std::this_thread::yield(): switches at yields/blocks are free, so bound 0
+                 already explores every order of the body invocations (pools of 3 threads: free_switch_cost=1, bound 1)
 """
 from specs import reg, McRun, product, MC_ASSUME, need_cover, need_outcomes  # noqa: F401
 
@@ -28,11 +26,26 @@ def batch(type, set, n, modes, waits=(1, 0), mts=(HUGE,), mis=(1,), gs=(1,), per
     return McRun(BIN, 'pf_batch', params, bound=0, mode=mode, opts=ONE, budget=budget)
 
 
-def one(harness, bound, build='plain', budget=120, **params):
+def one(harness, bound, build='plain', budget=120, opts=None, **params):
     params = {k: (dot(v) if isinstance(v, (list, tuple)) else v) for k, v in params.items()}
     if 'yield_' in params:
         params['yield'] = params.pop('yield_')
-    return McRun(BIN, harness, params, bound=bound, mode=build, budget=budget)
+    return McRun(BIN, harness, params, bound=bound, mode=build, opts=opts, budget=budget)
+
+
+def n2(harness, bound, modes, waits=(1, 0), budget=300, **params):
+    """Preemptive exploration on a pool of 2 (or more) threads. The adaptive+wait combination (stripe path) gets its own run with
+    free_switch_cost=1 and bound 1: with two stealers spinning on a stripe whose retirement is preempted, free switches at
+    the spin-yields make the schedule space unbounded (each round advances the cursor, so no two states are equal)."""
+    out = []
+    rest = [m for m in modes if m != 'a']
+    if rest:
+        out.append(one(harness, bound, mode=rest, wait=list(waits), budget=budget, **params))
+    if 'a' in modes and 0 in waits:
+        out.append(one(harness, bound, mode='a', wait=0, budget=budget, **params))
+    if 'a' in modes and 1 in waits:
+        out.append(one(harness, 1, mode='a', wait=1, opts=ONE, budget=budget, **params))
+    return out
 
 
 CORE = ['s', 'a', 'c1', 'c3', 'c100']
@@ -78,17 +91,18 @@ def c12_runs(tier):
         runs.append(batch(t, 'huge', 1, ['a'], waits=(0,), per=40, budget=40))
         runs.append(batch(t, 'huge', 1, ['a'], waits=(1,), per=40, budget=40))
     # ---- (B) schedules
-    b = 1 if q else 2
-    runs.append(one('pf_one', b, type='i32', n=1, size=[3, 5, 8], mode=['s', 'c1', 'c3'], wait=[1, 0], budget=200 if q else 500))
-    runs.append(one('pf_one', b, type='i32', n=1, size=[3, 5, 8], mode='a', wait=0, budget=100 if q else 300))
-    runs.append(one('pf_one', 1, type='i32', n=2, size=[5] if q else [5, 8], mode=['s', 'c3'], wait=[1, 0], budget=200))
-    runs.append(one('pf_one', 1, type='i8', n=1, at='max', size=[5, 8], mode=['s', 'c3'], wait=[1, 0], g=[1, 3], budget=100))
-    runs.append(one('pf_one', 0, type='i32', n=[1, 2], size=[3, 5, 8], mode=['s', 'a', 'c1', 'c3'], wait=[1, 0], yield_=1, budget=100))
+    M4 = ['s', 'a', 'c1', 'c3']
+    runs.append(one('pf_one', 1, type='i32', n=1, size=[3, 5, 8], mode=M4, wait=[1, 0], budget=200))
+    if not q:
+        runs.append(one('pf_one', 2, type='i32', n=1, size=[5, 8], mode=['s', 'a', 'c3'], wait=[1, 0], budget=900))
+    runs += n2('pf_one', 1, ['s', 'a', 'c3'], type='i32', n=2, size=[5] if q else [5, 8])
+    runs.append(one('pf_one', 1, type='i8', n=1, at='max', size=[5, 8], mode=['s', 'a', 'c3'], wait=[1, 0], g=[1, 3], budget=200))
+    runs.append(one('pf_one', 0, type='i32', n=[1, 2], size=[3, 5, 8], mode=M4, wait=[1, 0], yield_=1, budget=100))
     runs.append(one('pf_one', 0, type='i32', n=2, size=[5, 8], mode=['s', 'a'], wait=[1, 0], yield_=1, settle=0, cts=1, budget=100))
-    # the 64-bit range ending at the type's maximum (the stripe cursor is the index type's own width there)
+    # the 64-bit ranges ending at the type's maximum (the stripe cursor has the index type's own width there)
     for t in ('i64', 'u64'):
-        runs.append(one('pf_one', 0, type=t, n=[1, 2], at='max', off=[0, 1], size=[3, 5, 8], mode='a', wait=1, yield_=1, budget=60))
-        runs.append(one('pf_one', b, type=t, n=1, at='max', size=[3, 5, 8], mode=['s', 'c3'], wait=[1, 0], budget=200))
+        runs.append(one('pf_one', 1 if q else 2, type=t, n=1, at='max', off=[0, 1], size=[3, 4, 5, 8], mode=['a', 's', 'c3'], wait=[1, 0], budget=200 if q else 600))
+        runs += n2('pf_one', 1, ['a'], waits=(1,), type=t, n=2, at='max', size=[4, 5], budget=200)
     # sanitizer legs
     runs.append(batch('i64', 'edge', 1, ['s', 'c3'], gs=(1, 3), mode='asan', budget=100))
     runs.append(McRun(BIN, 'pf_one', dict(type='i8', n=1, at='min', size=5, mode='s', wait=0, g=2), bound=1, mode='tsan', budget=100))
@@ -105,11 +119,9 @@ reg('C12', level='model_checking', runs=c12_runs, quick_budget_s=240, thorough_b
                '16/32/64-bit signed and unsigned: ranges starting or ending at {MIN..MIN+2,-2..2,MAX-2..MAX} with sizes {0..9,63..65,2^62 or half the type, '
                'whole type} and, separately, the sizes at the limit of the size type; one execution per batch of <=150 pooled calls on the default '
                'schedule (the body yields, so workers take part). (B) sizes {3,5,8} on pools of 1-2 threads: every schedule with <=1 (quick) / <=2 (thorough) '
-               'preemptions on the static / explicit / adaptive-nowait paths, every order of bodies (free switches at yields) on all paths including the '
-               'adaptive stripes, and the 64-bit ranges ending at MAX. Oracle: recorded chunks non-empty, pairwise disjoint, inside [start,end), union = range; '
+               'preemptions, every order of the body invocations (free switches at yields), and the 64-bit ranges ending at MAX likewise. Oracle: recorded chunks non-empty, pairwise disjoint, inside [start,end), union = range; '
                'no body running or starting after parallel_for (wait=true) / wait() (wait=false) returned; a crash is a violation.',
-    level_note='the adaptive stripe path is explored without preemptions (engine spin rule, see harness notes); explicit chunk sizes are skipped on ranges that '
-               'would need more than 2000 body calls; multi-group dynamic path (>16 workers) not reachable with pools of <=2 threads',
+    level_note='explicit chunk sizes are skipped on ranges that would need more than 2000 body calls; multi-group dynamic path (>16 workers) not reachable with pools of <=2 threads',
     design_ref='DESIGN.md section 4, C12', assumptions=MC_ASSUME,
     rule='(A) one evaluation = one execution = one batch of parallel_for calls (the evidence lists calls per batch in the outcome digests); '
          '(B) one evaluation = one complete execution of one call under one schedule; distinct_nontrivial = distinct scheduler states with more than one continuation',
@@ -135,14 +147,11 @@ def c13_runs(tier):
         runs.append(batch('i64', 'gran', 2, ['s', 'a'], gs=gs_small, mis=(1, 4), check=13, budget=300))
         runs.append(batch('u8', 'gran', 2, ['s', 'a'], gs=(2, 3, 5, 16, 64), mts=(2, HUGE), check=13, budget=300))
         runs.append(batch('i8', 'sz12', 2, ['s', 'a'], gs=(2, 3, 7), check=13, budget=300))
-    # schedules: bound 1 on g in {2,3} (non-stripe paths), free-switch exploration on every path
+    # schedules: bound 1 on g in {2,3} (2 in thorough for g=2), free-switch exploration of the body orders
     b = 1 if q else 2
-    runs.append(one('pf_one', b, type='i32', check=13, n=1, g=2, off=[0, 1], size=[5, 7], mode='s', wait=[1, 0], budget=200 if q else 500))
-    runs.append(one('pf_one', b, type='i32', check=13, n=1, g=2, off=[0, 1], size=[5, 7], mode='a', wait=0, budget=200 if q else 400))
-    runs.append(one('pf_one', 1, type='i32', check=13, n=1, g=3, off=[0, 1, 2], size=[7, 10], mode='s', wait=[1, 0], budget=200))
-    runs.append(one('pf_one', 1, type='i32', check=13, n=1, g=3, off=[0, 1, 2], size=[7, 10], mode='a', wait=0, budget=200))
-    if not q:
-        runs.append(one('pf_one', 1, type='i32', check=13, n=2, g=2, off=[0, 1], size=[7], mode='s', wait=[1, 0], budget=300))
+    runs.append(one('pf_one', b, type='i32', check=13, n=1, g=2, off=[0, 1], size=[5, 7], mode=['s', 'a'], wait=[1, 0], budget=200 if q else 900))
+    runs.append(one('pf_one', 1, type='i32', check=13, n=1, g=3, off=[0, 1, 2], size=[7, 10], mode=['s', 'a'], wait=[1, 0], budget=300))
+    runs += n2('pf_one', 1, ['s', 'a'], type='i32', check=13, n=2, g=2, off=[1] if q else [0, 1], size=[7])
     runs.append(one('pf_one', 0, type='i32', check=13, n=[1, 2], g=[2, 3], off=[0, 1, 2], size=[7, 10], mode=['s', 'a'], wait=[1, 0], yield_=1, budget=200))
     runs.append(McRun(BIN, 'pf_one', {'type': 'i32', 'check': 13, 'n': 1, 'g': 2, 'off': '0.1', 'size': 7, 'mode': 's', 'wait': '1.0'}, bound=1, mode='tsan', budget=100))
     runs.append(batch('i32', 'gran', 2, ['s', 'a'], gs=(2, 3), check=13, mode='asan', budget=100))
@@ -156,7 +165,7 @@ reg('C13', level='model_checking', runs=c13_runs, quick_budget_s=240, thorough_b
                'schedule (quick: g=16/64 on one pool size each), plus int64_t, uint8_t and minItemsPerChunk/maxThreads variations (thorough); g in {2,3}: every '
                'schedule with <=1 preemption (2 thorough for g=2) on the static and adaptive-nowait paths and every order of bodies on all paths. Oracle on the '
                'recorded chunks: at most one has a size that is not a multiple of g, and that one ends at the range end.',
-    level_note='explicit chunk sizes are outside the statement; the adaptive stripe path is explored without preemptions (see C12)',
+    level_note='explicit chunk sizes are outside the statement',
     design_ref='DESIGN.md section 4, C13', assumptions=MC_ASSUME,
     rule='batch runs: one evaluation = one execution = one batch of calls; exploration runs: one evaluation = one execution of one call under one schedule',
     guards=[need_cover('granularity_tail', 'granular_chunks', 'multi_chunk', 'body_on_worker'), need_outcomes(10)])
@@ -167,26 +176,23 @@ def c14_runs(tier):
     q = tier == 'quick'
     runs = []
     S, G = [4, 5, 7], [1, 2, 4]
-    # preemptive exploration (non-stripe paths)
-    runs.append(one('pf_state', 1, cont='v', n=1, size=S, g=G, mode=['s', 'c2'], wait=[1, 0], budget=300))
-    runs.append(one('pf_state', 1, cont='v', n=1, size=S, g=G, mode='a', wait=0, budget=200))
-    runs.append(one('pf_state', 1, cont='v', n=2, size=5, g=2, mode='s', wait=[1, 0] if not q else 0, budget=300))
+    M = ['s', 'a', 'c2']
+    # preemptive exploration
+    runs.append(one('pf_state', 1, cont='v', n=1, size=S, g=G, mode=M, wait=[1, 0], budget=300))
+    runs += n2('pf_state', 1, ['s', 'a'] if q else M, cont='v', n=2, size=5, g=2, budget=400)
     if not q:
         for c in ('l', 'd'):
-            runs.append(one('pf_state', 1, cont=c, n=1, size=S, g=G, mode=['s', 'c2'], wait=[1, 0], reuse=1, pre=2, budget=300))
-            runs.append(one('pf_state', 1, cont=c, n=1, size=S, g=G, mode='a', wait=0, budget=200))
-        runs.append(one('pf_state', 2, cont='v', n=1, size=5, g=2, mode='s', wait=[1, 0], budget=600))
-        runs.append(one('pf_state', 2, cont='v', n=1, size=5, g=2, mode='a', wait=0, budget=400))
-        runs.append(one('pf_state', 1, cont='v', n=2, size=5, g=2, mode=['c2'], wait=[1, 0], budget=300))
-        runs.append(one('pf_state', 1, cont='v', n=2, size=5, g=2, mode='a', wait=0, budget=300))
-    # free-switch exploration (every path), all option combinations
-    runs.append(one('pf_state', 0, cont='v', n=2, size=[5, 7] if q else S, g=G, mode=['s', 'a', 'c2'], wait=[1, 0], yield_=1, budget=300))
+            runs.append(one('pf_state', 1, cont=c, n=1, size=S, g=G, mode=M, wait=[1, 0], reuse=1, pre=2, budget=300))
+        runs.append(one('pf_state', 2, cont='v', n=1, size=5, g=2, mode=['s', 'a'], wait=[1, 0], budget=900))
+        runs += n2('pf_state', 1, ['s', 'a'], cont='v', n=2, size=7, g=[1, 4], budget=400)
+    # free-switch exploration (every order of the bodies), all option combinations
+    runs.append(one('pf_state', 0, cont='v', n=2, size=[5, 7] if q else S, g=G, mode=M, wait=[1, 0], yield_=1, budget=300))
     for c in ('v', 'l', 'd'):
-        runs.append(one('pf_state', 0, cont=c, n=1, size=S, g=G, mode=['s', 'a', 'c2'], wait=[1, 0], reuse=[0, 1], pre=[0, 3], yield_=1, budget=200))
+        runs.append(one('pf_state', 0, cont=c, n=1, size=S, g=G, mode=M, wait=[1, 0], reuse=[0, 1], pre=[0, 3], yield_=1, budget=200))
     if not q:
         for c in ('l', 'd'):
-            runs.append(one('pf_state', 0, cont=c, n=2, size=S, g=G, mode=['s', 'a', 'c2'], wait=[1, 0], reuse=1, pre=1, yield_=1, budget=300))
-        runs.append(one('pf_state', 0, cont='v', n=2, size=[5, 7], g=[1, 2], mode=['s', 'a', 'c2'], wait=[1, 0], yield_=1, settle=0, cts=1, budget=300))
+            runs.append(one('pf_state', 0, cont=c, n=2, size=S, g=G, mode=M, wait=[1, 0], reuse=1, pre=1, yield_=1, budget=300))
+        runs.append(one('pf_state', 0, cont='v', n=2, size=[5, 7], g=[1, 2], mode=M, wait=[1, 0], yield_=1, settle=0, cts=1, budget=300))
     runs.append(McRun(BIN, 'pf_state', {'cont': 'v', 'n': 1, 'size': 5, 'g': '1.2', 'mode': 's.a', 'wait': '1.0', 'yield': 1}, bound=0, mode='tsan', budget=100))
     runs.append(McRun(BIN, 'pf_state', {'cont': 'd', 'n': 2, 'size': 7, 'g': 2, 'mode': 's.a.c2', 'wait': '1.0', 'reuse': '0.1', 'pre': 3, 'yield': 1}, bound=0, mode='asan', budget=100))
     return runs
@@ -196,10 +202,9 @@ reg('C14', level='model_checking', runs=c14_runs, quick_budget_s=240, thorough_b
     technique='stateless model checking of the stateful parallel_for overloads: the body brackets a scheduling point with an in-use counter on its state object',
     level_text='std::vector / std::list / std::deque states, range sizes {4,5,7}, granularity {1,2,4}, static / adaptive / explicit chunk 2, wait true/false, '
                'reuseExistingState true/false with 0-3 pre-existing states, pools of 1-2 threads: every schedule with <=1 preemption (2 in thorough for the '
-               'static and adaptive-nowait shapes) on the non-stripe paths, and every order of the bodies (free switches at yields and blocking points) for all '
-               'combinations including the adaptive stripes. Oracle: the in-use counter of a state object never exceeds 1 before parallel_for (wait=true) / '
+               'static and adaptive shapes of size 5, g 2), and every order of the bodies (free switches at yields and blocking points) for all combinations. Oracle: the in-use counter of a state object never exceeds 1 before parallel_for (wait=true) / '
                'wait() (wait=false) returned; the container is non-empty afterwards; bodies cover the range.',
-    level_note='the adaptive stripe path is explored without preemptions (see C12)',
+    level_note='pools of 2 threads at bound 1 on the shapes with a granularity tail; full option product under the free-switch exploration',
     design_ref='DESIGN.md section 4, C14', assumptions=MC_ASSUME,
     rule='one evaluation = one complete execution of one configuration (picked by mc::choose) under one schedule; distinct_nontrivial = distinct scheduler states with more than one continuation',
     guards=[need_cover('granularity_tail', 'concurrent_bodies', 'several_states_used', 'returned_before_wait', 'reused_existing_state'), need_outcomes(5)])
@@ -245,17 +250,17 @@ def c48_runs(tier):
     # every order of the bodies (free switches): parallel_for
     runs.append(one('pf_one', 0, type='i32', check=48, n=1, mt=[0, 1, 2, 3], mode=M, wait=[1, 0], g=[1, 2], size=[4, 7], yield_=1, budget=100))
     runs.append(one('pf_one', 0, type='i32', check=48, n=2, mt=[0, 1, 2, 3], mode=M, wait=[1, 0], g=[1, 2], size=[7] if q else [4, 7], yield_=1, budget=300))
-    runs.append(one('pf_one', 0, type='i32', check=48, n=3, mt=[2, 3, 4], mode=['s'] if q else M, wait=[1, 0], g=2 if q else [1, 2], size=7, yield_=1, budget=300))
+    runs.append(one('pf_one', 1, type='i32', check=48, n=3, mt=[2, 3, 4], mode=['s', 'a'] if q else M, wait=[1, 0], g=2 if q else [1, 2], size=7, yield_=1, opts=ONE, budget=300))
     runs.append(one('pf_state', 0, check=48, cont='v', n=2, mt=[1, 2, 3], mode=M, wait=[1, 0], g=2, size=7, yield_=1, budget=200))
     # every order of the applications: for_each
     runs.append(one('fe_one', 0, check=48, n=[1, 2], cont=['v', 'l', 'f'], cnt=[4, 7], mt=[0, 1, 2, 3], wait=[1, 0], api='n', yield_=1, budget=200))
-    runs.append(one('fe_one', 0, check=48, n=3, cont=['v', 'f'], cnt=7, mt=[2, 3, 4], wait=[1, 0], api='n', yield_=1, budget=300))
-    # preemptions on the non-stripe paths
-    runs.append(one('pf_one', 1, type='i32', check=48, n=2, mt=2, mode='s', wait=[1, 0], g=[1, 2], size=5, budget=300))
+    runs.append(one('fe_one', 1, check=48, n=3, cont=['v', 'f'], cnt=7, mt=[2, 3, 4], wait=[1, 0], api='n', yield_=1, opts=ONE, budget=300))
+    # preemptions
+    runs += n2('pf_one', 1, ['s', 'a'], type='i32', check=48, n=2, mt=2, g=[1, 2], size=5)
     runs.append(one('fe_one', 1, check=48, n=2, cont='v', cnt=4, mt=2, wait=[1, 0], api='n', budget=300))
     if not q:
         runs.append(one('pf_one', 1, type='i32', check=48, n=2, mt=[2, 3], mode=['c2'], wait=[1, 0], size=5, budget=300))
-        runs.append(one('pf_one', 1, type='i32', check=48, n=2, mt=[2, 3], mode='a', wait=0, g=[1, 2], size=5, budget=300))
+        runs += n2('pf_one', 1, ['s', 'a'], type='i32', check=48, n=2, mt=3, g=[1, 2], size=7)
         runs.append(one('pf_one', 2, type='i32', check=48, n=2, mt=2, mode='s', wait=0, g=2, size=5, budget=900))
         runs.append(one('fe_one', 1, check=48, n=2, cont=['l', 'f'], cnt=4, mt=2, wait=[1, 0], api='n', budget=300))
         runs.append(one('pf_one', 0, type='i32', check=48, n=2, mt=[2, 3], mode=M, wait=[1, 0], g=[1, 2], size=7, yield_=1, settle=0, cts=1, budget=200))
@@ -268,9 +273,9 @@ reg('C48', level='model_checking', runs=c48_runs, quick_budget_s=240, thorough_b
     technique='stateless model checking of parallel_for / for_each with an in-flight counter checked at every body entry',
     level_text='parallel_for (plain and stateful) and for_each with maxThreads in {0,1,2,3,N+1} on pools of N in {1,2,3} threads, static / adaptive / explicit chunk, '
                'wait true/false, granularity {1,2}, sizes {4,7}: every order of the body invocations (the body yields; switches at yields and blocking points are '
-               'free) and every schedule with <=1 preemption (2 thorough on the static no-wait shape) on the non-stripe paths. Oracle: the number of body '
+               'free; pools of 3 threads: at most one non-default switch) and every schedule with <=1 preemption (2 thorough on the static no-wait shape) on pools of 2 threads. Oracle: the number of body '
                'invocations in flight never exceeds max(1, maxThreads).',
-    level_note='the adaptive stripe path is explored without preemptions (see C12); N=3 only with the yield exploration',
+    level_note='N=3 only with the yield exploration at one non-default switch (bound 2 there costs 2*10^5 executions per 6 configurations)',
     design_ref='DESIGN.md section 4, C48', assumptions=MC_ASSUME,
     rule='one evaluation = one complete execution of one configuration (picked by mc::choose) under one schedule; distinct_nontrivial = distinct scheduler states with more than one continuation',
     guards=[need_cover('concurrent_bodies', 'peak_equals_maxThreads', 'concurrent_applications', 'returned_before_wait', 'granularity_tail'), need_outcomes(5)])
